@@ -638,13 +638,15 @@ def appendClauses : List Term :=
     Term.a2 ":-" (Term.a3 "append" (Term.consT (.var 0) (.var 1)) (.var 2) (Term.consT (.var 0) (.var 3)))
                  (Term.a3 "append" (.var 1) (.var 2) (.var 3)) ]
 
+/-- the special case of `Append`: a non-empty list without a variable in the spine -/
+def appendFast (xs : Term) : Bool :=
+  match xs with
+  | .app _ _ => xs.spine.2 == Term.nilT
+  | _ => false
+
 def append (fuel : Nat) (xs ys zs : Term) : Result :=
-  let args := [xs, ys, zs]
-  let fast : Bool := match xs with
-    | .app _ _ => xs.spine.2 == Term.nilT
-    | _ => false
-  if fast then .ok (unifyAns args zs (Term.list xs.spine.1 ys))
-  else .ok (sld appendClauses fuel [Term.a3 "append" xs ys zs] args (boundL args))
+  if appendFast xs = true then .ok (unifyAns [xs, ys, zs] zs (Term.list xs.spine.1 ys))
+  else .ok (sld appendClauses fuel [Term.a3 "append" xs ys zs] [xs, ys, zs] (boundL [xs, ys, zs]))
 
 /-! ## dispatch used by the driver -/
 
